@@ -21,6 +21,7 @@ import Kap.Basic
 import Kap.Gen.C07
 import Kap.Model.C07
 import Kap.Model.C07Tree
+import Kap.Model.C07Buf
 import Kap.Spec.C07
 open Kap Kap.C07
 
@@ -232,14 +233,21 @@ def parseForkTopo (chainT : String) : Option Topo := do
          decl := 0 :: all.map (·.1), fork := true }
 
 /-- Topologies with a union / join node (several PARENTS): no model, the property on the observed outcome only.
-`mult` = how often an output below the merging node must have been handed every accepted point. -/
+an output below a union must have been handed every accepted point once per parent that lets it through, below a join once. -/
 def judgeMerge (l chainT clsT stopT : String) (obs : List String) : Verdict := Id.run do
   let parts := chainT.splitOn ";"
   let some last := parts.getLast? | return .badop l
-  let isUnion := last.startsWith "=union"
+  -- head of the merging part: union | join | ojoin:<lag> (OUTER join with .fill) | lunion:<lag>; with a lag every branch
+  -- but the first ends in a filter that keeps its last <lag> points out: the merging node still BUFFERS the sets /
+  -- points of the leading parent when its input ends and has to flush them (JoinNode.Finish -> emitAll, UnionNode.Finish ->
+  -- emitReady(true)) before it closes its child edge
+  let headT : String := (((last.splitOn ",").headD "").splitOn "=").getD 1 ""
+  let (headK, lag) := match headT.splitOn ":" with
+    | [k, l] => (k, l.toNat?.getD 0)
+    | _ => (headT, 0)
+  let isUnion := headK == "union" || headK == "lunion"
   let nbranch := parts.length - 2
   let before := ((parts.dropLast.map (fun p => (p.splitOn ",").length)).foldl (· + ·) 0)   -- nodes declared before the merging node
-  let mult := if isUnion then nbranch else 1
   match obs with
   | ["panic"] => return .specfail "no-crash" "the real code panicked (the harness child process died) on a union/join topology"
   | ["stuck"] => return .specfail "stop-completes" "the harness child process got stuck on a union/join topology"
@@ -255,11 +263,21 @@ def judgeMerge (l chainT clsT stopT : String) (obs : List String) : Verdict := I
     | some clause => return .specfail clause detail
     | none =>
       if nodeErrT == "1" then return .specfail "stop-completes" s!"a node of a healthy union/join pipeline failed: {detail}"
+      -- the buffering join on the model (Model/C07Buf.lean; two parents): what the child edge was handed when the node returned
+      let joinModel : Option Nat := if headK == "ojoin" && nbranch == 2 then
+          some (Buf.run false (Buf.init acc (acc - lag)) (Buf.canon acc)).e else none
       for o in outs do
-        let m := if o.idx > before then mult else 1
-        if o.total != m * o.distinct || o.distinct != acc then
-          return .specfail "accepted-points-delivered" s!"output {o.idx} must have been handed every point {m} time(s): {detail}"
-      return .ok true ["merge-spec-only", if isUnion then "union" else "join", clsT, stopT]
+        let below := o.idx > before
+        -- a lagging union hands the points of the leading parent once and those the other parents let through once each
+        let want := if below && isUnion then acc + (nbranch - 1) * (acc - lag) else acc
+        if o.distinct != acc || o.total != want then
+          return .specfail "accepted-points-delivered" s!"output {o.idx} must have been handed every accepted point ({want} deliveries, {acc} distinct; lag {lag} of the other parents: the merging node has to flush what it still buffers when its input ends): {detail}"
+        if below then
+          match joinModel with
+          | some e => if o.total != e then return .mismatch s!"the join model (Model/C07Buf.lean) emits {e} sets, output {o.idx} got {o.total}: {detail}"
+          | none => pure ()
+      let tags := if lag > 0 then ["buffering-merge", s!"lag{min lag 3}"] else []
+      return .ok true ((if joinModel.isSome then ["merge-join-model"] else ["merge-spec-only"]) ++ [headK, clsT, stopT] ++ tags)
   | _ => return .mismatch s!"the harness could not run the union/join case: {l}"
 
 def judge (_id : String) (lines : Array String) : Verdict := Id.run do
